@@ -818,7 +818,7 @@ def rt_task(arg):
                 key = "rt:%s:%s" % (rt_class(copts), bad[0]) + ("" if again else ":intermittent")
                 acc.fails.append((key, "plaintext %s, xz %s | xz %s -dc: %s" % (pname, " ".join(copts), " ".join(dopts), bad[1]),
                                   json.dumps({"part": "rt", "plain": pname, "copts": copts, "dopts": dopts})))
-            elif len(acc.samples) < 1 and len(copts) > 2:
+            elif len(acc.samples) < 1 and pname == "text70k":
                 acc.samples.append("rt: %s through xz %s | xz %s -dc is the identity" % (pname, " ".join(copts), " ".join(dopts)))
     finally:
         shutil.rmtree(wd, ignore_errors=True)
